@@ -73,8 +73,10 @@ func (o *oracles) expectedExclusive(y *rCtr) (allowed []int, group string) {
 	return []int{full}, "multi-core"
 }
 
-func (o *oracles) checkC03(rep reporter) {
+func (o *oracles) checkC03(rep0 reporter) {
 	w := o.w
+	rep := o.withCause(rep0)
+	o.victim = nil
 	sn := o.taSnap()
 	if sn == nil {
 		return
@@ -167,6 +169,7 @@ func (o *oracles) checkC03(rep reporter) {
 		if !ok {
 			continue
 		}
+		o.victim = y
 		c, inCache := cch.LookupContainer(y.spec.ID)
 		preserved := w.cpuPreserved(y)
 		// every CPU-pinned container has a non-empty allowed CPU set
